@@ -33,7 +33,8 @@ type Cluster struct {
 
 	ET, HB, Lease time.Duration
 
-	controlled bool // election timers parked at the gate
+	controlled bool            // election timers parked at the gate
+	gatedOnly  map[string]bool // if non-empty: only these nodes' timers are gated
 	fidSeq     int
 
 	net *Net
@@ -102,7 +103,7 @@ func init() {
 func (c *Cluster) timerGate(r *raft.Raft) {
 	c.mu.Lock()
 	n := c.byPtr[r]
-	if n == nil || n.ghost.Load() || n.gateOpen || !c.controlled {
+	if n == nil || n.ghost.Load() || n.gateOpen || !c.controlled || (len(c.gatedOnly) > 0 && !c.gatedOnly[n.id]) {
 		c.mu.Unlock()
 		return
 	}
